@@ -1,0 +1,82 @@
+//go:build verif
+
+package records
+
+// Contracts for the record stores (properties C05, C07, C14). Comment-only.
+
+/*@
+# ---- value store (C05) -------------------------------------------------------
+# The datastore's contents are not modelled; the property is carried by PATH
+# obligations inside each function: what is validated before it is written,
+# under which key, under which lock. Atomicity of the read-select-write in Put
+# follows from the lock discipline checked here plus the standard argument
+# that code holding the key's lock runs atomically with respect to every other
+# holder (stated in DESIGN.md, not machine-checked).
+
+func lockIndex(key string) byte
+  props C05
+  function
+  ensures 0 <= result && result <= 255
+
+func valueDsKey(key string) ds.Key
+  props C05
+  function
+
+func (v *ValueStore) Put(ctx context.Context, key string, rec *recpb.Record) error
+  props C05
+  requires v.validator != nil && v.ds != nil
+  requires [key-match] str(rec.Key) == key
+  ghostvar $validated bool = false
+  ghostvar $existing *recpb.Record = nil
+  ghostvar $selected bool = false
+  ghostvar $stored *recpb.Record = nil
+  ghostvar $data []byte = nil
+  modifies *
+  ghost at call(Validate): $validated = ($ret0 == nil && $arg0 == key && $arg1 == rec.Value)
+  ghost at call(existingForSelect): $existing = $ret0
+  ghost at before call(existingForSelect): assert(held(v.putLocks[lockIndex(key)]) && $arg1 == valueDsKey(key))
+  ghost at call(Select): $selected = ($ret1 == nil && $ret0 == 0 && $arg0 == key && len($arg1) == 2 && $arg1[0] == rec.Value && $existing != nil && $arg1[1] == $existing.Value)
+  ghost at call(Clone): $stored = unbox($ret0, *recpb.Record)
+  ghost at call(Marshal): $data = $ret0; assert(unbox($arg0, *recpb.Record) == $stored && $stored.Key == rec.Key && $stored.Value == rec.Value)
+  ghost at before call(Put): assert($validated); assert(held(v.putLocks[lockIndex(key)])); assert($arg1 == valueDsKey(key) && $arg2 == $data); assert($existing == nil || $selected)
+
+func (v *ValueStore) existingForSelect(ctx context.Context, dskey ds.Key) (*recpb.Record, error)
+  props C05
+  requires v.validator != nil && v.ds != nil
+  modifies nothing
+  ghostvar $ok bool = false
+  ghostvar $rec *recpb.Record = nil
+  ensures [internal-valid-or-absent] imp(result0 != nil, result1 == nil && $ok && result0 == $rec)
+  ghost at call(Validate): $ok = ($ret0 == nil && $rec != nil && $arg0 == str($rec.Key) && $arg1 == $rec.Value)
+  ghost at before call(Unmarshal): $rec = unbox($arg1, *recpb.Record)
+
+func (v *ValueStore) discardIfUnchanged(ctx context.Context, key string, dskey ds.Key, seen []byte)
+  props C05
+  requires v.ds != nil
+  requires [key-of-dskey] dskey == valueDsKey(key)
+  ghostvar $cur []byte = nil
+  ghostvar $same bool = false
+  modifies nothing
+  ghost at call(Get): $cur = $ret0; assert(held(v.putLocks[lockIndex(key)]) && $arg1 == dskey)
+  ghost at call(Equal): $same = ($ret0 && $arg0 == $cur && $arg1 == seen)
+  ghost at before call(Delete): assert(held(v.putLocks[lockIndex(key)])); assert($arg1 == dskey); assert($same)
+
+func (v *ValueStore) Get(ctx context.Context, key string) (*recpb.Record, error)
+  props C05 C04
+  requires v.ds != nil
+  ghostvar $exp bool = true
+  modifies *
+  ensures [key-match] imp(result0 != nil, str(result0.Key) == key && result1 == nil)
+  ensures [internal-not-expired] imp(result0 != nil, !$exp)
+  ghost at before call(Get): assert($arg1 == valueDsKey(key))
+  ghost at call(expired): $exp = $ret0
+
+func (v *ValueStore) sweep(ctx context.Context, prefix string)
+  props C05
+  requires v.ds != nil
+  ghostvar $exp bool = false
+  ghostvar $k string = ""
+  modifies *
+  ghost at call(expired): $exp = $ret0
+  ghost at before call(discardIfUnchanged): assert($exp && $arg2 == valueDsKey($arg1))
+@*/
